@@ -275,7 +275,17 @@ type zvwCodeTee struct {
 func (t *zvwCodeTee) Write(p []byte) (int, error) {
 	// a response that never completes (e.g. a frame cut short) must not hang the harness: the caller gets a time-out
 	t.Conn.SetDeadline(time.Now().Add(8 * time.Second))
+	t.observe(p)
+	if len(p) == 0 {
+		return 0, nil // a zero-length write on a net.Pipe would block until the peer reads (a socket returns at once)
+	}
+	return t.Conn.Write(p)
+}
+
+// observe follows the frames the client writes (the first byte of each is the message code).
+func (t *zvwCodeTee) observe(p []byte) {
 	t.mu.Lock()
+	defer t.mu.Unlock()
 	d := p
 	for len(d) > 0 {
 		if t.need == 0 {
@@ -295,7 +305,7 @@ func (t *zvwCodeTee) Write(p []byte) (int, error) {
 				}
 			}
 		} else {
-			if t.codes[len(t.codes)-1] == -2 {
+			if len(t.codes) > 0 && t.codes[len(t.codes)-1] == -2 {
 				t.codes[len(t.codes)-1] = int(d[0])
 			}
 			k := t.need
@@ -306,11 +316,6 @@ func (t *zvwCodeTee) Write(p []byte) (int, error) {
 			t.need -= k
 		}
 	}
-	t.mu.Unlock()
-	if len(p) == 0 {
-		return 0, nil // a zero-length write on a net.Pipe would block until the peer reads (a socket returns at once)
-	}
-	return t.Conn.Write(p)
 }
 
 // zvwNzConn drops zero-length writes (net.Pipe artefact, see above).
@@ -326,7 +331,7 @@ func (t *zvwCodeTee) take() []int {
 	t.mu.Lock()
 	defer t.mu.Unlock()
 	c := t.codes
-	t.codes = nil
+	t.codes, t.hdr, t.need = nil, nil, 0 // every operation starts on a frame boundary of its own
 	return c
 }
 
